@@ -69,7 +69,10 @@ def tree_hash():
             for f in sorted(fn):
                 p = os.path.join(d, f)
                 h.update(p.encode()); h.update(open(p, "rb").read())
-        for f in ("tools/ll2c.cpp", "models/models.cpp", "harness/verif.h"):
+        extra = ["tools/ll2c.cpp"] + sorted("models/" + f for f in os.listdir(os.path.join(VERIF, "models"))) \
+            + sorted("harness/" + f for f in os.listdir(os.path.join(VERIF, "harness")) if f.endswith(".h")) \
+            + sorted("rt/" + f for f in os.listdir(os.path.join(VERIF, "rt")))
+        for f in extra:
             p = os.path.join(VERIF, f)
             if os.path.exists(p): h.update(open(p, "rb").read())
         _tree_hash = h.hexdigest()[:16]
@@ -371,6 +374,7 @@ def run_shard(job, tier, entry, params, jd):
     name = "%s/%s%s" % (job["name"], entry, "".join("/p%d=%d" % kv for kv in sorted(params.items())))
     res = dict(name=name, job=job["name"], entry=entry, params=params, status=None)
     timeout = job.get("timeout", {}).get(tier, 600 if tier == "quick" else 3600) if isinstance(job.get("timeout"), dict) else job.get("timeout", 600 if tier == "quick" else 3600)
+    if os.environ.get("OVM_TIMEOUT"): timeout = int(os.environ["OVM_TIMEOUT"])
     mem = job.get("mem_gb", 6)
     solvers = job.get("solvers", ["minisat"])
     SCHED.acquire(mem, len(solvers))
